@@ -56,6 +56,8 @@ structure Ghost where
   /-- streams whose EOF the application read / whose send side it closed -/
   eofs : List Int := []
   closedSend : List Int := []
+  /-- streams the application stopped reading -/
+  stops : List Int := []
   /-- the peer left what it was told: later local errors are its own fault -/
   peerLeft : Bool := false
 
@@ -123,7 +125,11 @@ def Ghost.streamCredit (gh : Ghost) (sid : Int) : Int :=
   max init ((lookupI gh.credit sid).getD 0)
 
 def Ghost.total (gh : Ghost) : Int := gh.highest.foldl (fun acc e => acc + e.2) 0
-def Ghost.totalRead (gh : Ghost) : Int := gh.read.foldl (fun acc e => acc + e.2) 0
+/-- what the application has consumed: bytes read, and everything of a stream it stopped reading once the final
+    size is known (the unread rest is handed back to the connection window) -/
+def Ghost.totalRead (gh : Ghost) : Int :=
+  gh.highest.foldl (fun acc e =>
+    acc + (if gh.stops.contains e.1 && (lookupI gh.fins e.1).isSome then e.2 else (lookupI gh.read e.1).getD 0)) 0
 
 inductive Judged
   | within (gh : Ghost)
@@ -216,7 +222,8 @@ def packMonitors (gh : Ghost) (impl : String) : Ghost × List Fail := Id.run do
   if !gh.peerLeft then
     for (sid, hi) in gh.highest do
       let cred := gh.streamCredit sid
-      if hi > 0 && hi == cred && (lookupI gh.read sid).getD 0 == hi then
+      -- (a stream whose final size is known needs no further credit, one the application stopped reading gets none)
+      if hi > 0 && hi == cred && (lookupI gh.read sid).getD 0 == hi && (lookupI gh.fins sid).isNone && !gh.stops.contains sid then
         match lookupI msd sid with
         | some v =>
           if v ≤ cred then
@@ -247,7 +254,7 @@ def packMonitors (gh : Ghost) (impl : String) : Ghost × List Fail := Id.run do
       let first : Int := if uni then 3 else 1
       let allDone := (List.range opened.toNat).all fun i =>
         let sid := first + 4 * (i : Int)
-        gh.eofs.contains sid && (uni || gh.closedSend.contains sid)
+        (gh.eofs.contains sid || (gh.stops.contains sid && (lookupI gh.fins sid).isSome)) && (uni || gh.closedSend.contains sid)
       if opened > 0 && opened == told && allDone && maxOf uni ≤ told then
         fails := fails ++ [("stream_credit_renewed", "-",
           s!"the peer opened all {told} {kind} streams it was told, every one is finished and accepted, and no higher MAX_STREAMS leaves ({ms})")]
@@ -368,6 +375,17 @@ def step (s : St) (op impl : String) : St × StepOut :=
         match r.2 with
         | some sid => ({ s with g := some r.1 }, { model := s!"sid={sid}", tags := ["acc"] })
         | none => ({ s with g := some r.1 }, { model := "none", tags := ["acc:none"] })
+      | ["stop", sid] =>
+        match sid.toInt? with
+        | none => (s, { model := "bad-op" })
+        | some sid =>
+          let gh := if impl == "ok" && !s.gh.stops.contains sid then { s.gh with stops := s.gh.stops ++ [sid] } else s.gh
+          if s.dead then ({ s with gh := gh }, { model := impl, tags := ["gray"] }) else
+          let r := g.stopRead sid
+          let completed := r.1.life.recvDone.length > g.life.recvDone.length
+          ({ s with g := some r.1, gh := gh },
+           { model := if r.2 then "ok" else "nostream",
+             tags := [if r.2 then "stop" else "stop:nostream"] ++ (if completed then ["life:abandoned-at-stop"] else []) })
       | ["cls", sid] =>
         match sid.toInt? with
         | none => (s, { model := "bad-op" })
